@@ -159,6 +159,9 @@ def composable_outputs(prog):
     return sites
 
 
+INNER_DAGS: dict = {}  # inner DAG objects of the program built last (name -> DAG): they are also called directly afterwards
+
+
 def build_twz(prog, plain, cfg, strip_flags=False, top=True):
     """tawazi environment: xn(...) per function, dag(...) per (inner) program."""
     from tawazi import Resource, and_, dag, not_, or_, xn
@@ -179,6 +182,7 @@ def build_twz(prog, plain, cfg, strip_flags=False, top=True):
             env["%s_s%d" % (prog["name"], st["site"])] = xns[st["fn"]]
     for iname, ip in prog["inner"].items():
         env[iname] = build_twz(ip, plain, cfg, strip_flags, top=False)
+        INNER_DAGS[iname] = env[iname]
     exec(compile(G.render(prog, strip_flags), "<%s>" % prog["name"], "exec"), env)  # noqa: S102
     if prog.get("qualname"):
         env[prog["name"]].__name__ = prog["pyname"]
@@ -412,6 +416,8 @@ def one_program(col, pid, rng, feats, depth, pidx, reps=3, clauses=True, flavour
         if only is None:
             col.violation(pid, "build_of_in_fragment_program_failed", dict(exc=repr(e)[:300], source="\n".join(G.all_sources(prog))), rp)
         return
+    inner_dags = {k: INNER_DAGS[k] for k in prog["inner"] if k in INNER_DAGS}
+    INNER_DAGS.clear()
     col.counters["programs"] += 1
     col.counters["inner_dags_obtained_through_compose"] += COMPOSED_INNER[0]
     COMPOSED_INNER[0] = 0
@@ -484,6 +490,25 @@ def one_program(col, pid, rng, feats, depth, pidx, reps=3, clauses=True, flavour
         for e in log:
             if e["kind"] in ("SPIN", "DEADLOCK"):
                 col.counters["event_" + e["kind"]] += 1
+        if rep == reps - 1 and failing is None and (only is None or "nested_dag_object_behaves_differently_after_it_was_nested" in only):
+            # the inner DAG objects are DAGs of their own: being nested in (and indexed by) an outer DAG has not changed them
+            for iname, d_in in inner_dags.items():
+                ip = prog["inner"][iname]
+                if not ip.get("flagfree", True):
+                    continue  # (activation flags inside: the full oracle of the outer comparison is needed to classify what is seen)
+                iargs = gen_args(rng, ip, (pidx << 8) | 0x80 | rep)
+                renv_i = build_ref(ip, plain)
+                probes.reset_counts()
+                iref = probes.run_ref(lambda: renv_i[iname](*iargs))
+                if iref[0] != "ok":
+                    continue
+                B.reset_log()
+                ires = probes.run_op("direct_call_of_a_dag_that_was_nested", lambda: d_in(*iargs))
+                col.counters["inner_dags_called_directly_after_they_were_nested"] += 1
+                if ires[0] != "ok" or not same(iref[1], ires[1]):
+                    col.violation(pid, "nested_dag_object_behaves_differently_after_it_was_nested", dict(
+                        inner=iname, expected=short(iref[1], 300), got=short(ires[1] if ires[0] == "ok" else ires, 300),
+                        source="\n".join(G.all_sources(prog))), rp2)
 
 
 def rejected_description(k):
